@@ -168,6 +168,76 @@ def _ftemplate(h, want_vars, what):
     return h[1]
 
 
+
+# ------------------------------------------------------------------ patterns -> regex terms of Model/Regex.v
+def _re_term(pattern):
+    """Parse a pattern with Python's own pattern parser and print it as a term of type `re` (fail closed on any
+    construct outside the modelled subset)."""
+    try:
+        import re._parser as sp
+        import re._constants as sc
+    except ImportError:                     # Python < 3.11
+        import sre_parse as sp
+        import sre_constants as sc
+
+    CATS = {sc.CATEGORY_SPACE: [(9, 13), (28, 32)], sc.CATEGORY_DIGIT: [(48, 57)]}   # on ASCII text
+
+    def rng(rs):
+        return "[" + "; ".join("(%d, %d)" % r for r in rs) + "]"
+
+    def seq(items):
+        ts = [one(op, av) for op, av in items]
+        if not ts:
+            return "REps"
+        out = ts[-1]
+        for t in reversed(ts[:-1]):
+            out = f"(RSeq {t} {out})"
+        return out
+
+    def one(op, av):
+        if op == sc.LITERAL:
+            if av > 126:
+                raise Shape("bench: non-ASCII literal in a pattern")
+            return f"(RLit {av})"
+        if op == sc.NOT_LITERAL:
+            return f"(RCls (Cl true {rng([(av, av)])}))"
+        if op == sc.IN:
+            neg, rs = False, []
+            for o, a in av:
+                if o == sc.NEGATE:
+                    neg = True
+                elif o == sc.LITERAL:
+                    rs.append((a, a))
+                elif o == sc.RANGE:
+                    rs.append((a[0], a[1]))
+                elif o == sc.CATEGORY and a in CATS:
+                    rs += CATS[a]
+                else:
+                    raise Shape(f"bench: unsupported class item {o} {a} in a pattern")
+            return f"(RCls (Cl {'true' if neg else 'false'} {rng(rs)}))"
+        if op == sc.MAX_REPEAT:
+            lo, hi, sub = av
+            if hi != sc.MAXREPEAT or lo not in (0, 1):
+                raise Shape("bench: unsupported repetition bounds in a pattern")
+            return f"({'RStar' if lo == 0 else 'RPlus'} {seq(sub)})"
+        if op == sc.SUBPATTERN:
+            gid, add, dele, sub = av
+            if add or dele:
+                raise Shape("bench: inline flags in a pattern")
+            return seq(sub) if gid is None else f"(RGrp {gid} {seq(sub)})"
+        if op == sc.BRANCH:
+            alts = [seq(a) for a in av[1]]
+            out = alts[-1]
+            for t in reversed(alts[:-1]):
+                out = f"(RAlt {t} {out})"
+            return out
+        raise Shape(f"bench: unsupported pattern construct {op}")
+
+    parsed = sp.parse(pattern)
+    if parsed.state.flags & ~sc.SRE_FLAG_UNICODE:
+        raise Shape("bench: pattern sets flags")
+    return seq(list(parsed))
+
 def gen_bench(repo):
     R = _match(repo, "bench_to_circuit", READER)
     W = _match(repo, "circuit_to_bench", WRITER)
@@ -252,6 +322,7 @@ def gen_bench(repo):
 
     out = T.HEADER % "circuitgraph/io.py (bench_to_circuit, circuit_to_bench)"   # noqa: F821
     out = out.replace("From stdpp Require Import strings.", "From Coq Require Import Ascii.\nFrom stdpp Require Import strings.")
+    out = out.replace("From CG Require Import Types.", "From CG Require Import Types Model.Regex.")
     out += "(* ---- reader ---- *)\n"
     out += f"Definition rd_gate_types : list string := {_csl(gate_types)}.   (* the alternation is this list followed by its upper-cased copy *)\n"
     out += f"Definition rd_buff_names : list string := {_csl(buff_names)}.\n"
@@ -271,6 +342,13 @@ def gen_bench(repo):
     out += f"Definition rd_pat_gate_post : string := {_cs(g_post)}.\n"
     out += f"Definition rd_pat_dff : string := {_cs(dff_regex)}.\n"
     out += f"Definition rd_pat_output : string := {_cs(out_regex)}.\n"
+    out += "(* the same patterns as parsed by Python's own pattern parser, as terms of Model/Regex.v; the gate pattern is assembled\n"
+    out += "   like the reader does: prefix ++ \"|\".join(gate_types + upper-cased gate_types) ++ suffix *)\n"
+    gate_full = g_pre + alt_sep.join(gate_types + [t.upper() for t in gate_types]) + g_post
+    for nm, pat in (("comment", pat_comment), ("input", in_regex), ("gate", gate_full), ("dff", dff_regex), ("output", out_regex)):
+        out += f"Definition rd_re_{nm} : re := {_re_term(pat)}.\n"
+    out += f"Definition rd_strip_codes : list nat := [{'; '.join(str(ord(ch)) for ch in strip_g)}].\n"
+    out += f"Definition rd_split_code : nat := {ord(split_g)}.\n"
     out += "(* ---- writer ---- *)\n"
     out += f"Definition wr_gates : list gtype := {T.tlist(w_gates)}.       (* written as NAME(operands), NAME = upper-cased type *)\n"   # noqa: F821
     out += f"Definition wr_const0 : list gtype := {T.tlist(w_c0)}.\n"   # noqa: F821
